@@ -85,12 +85,17 @@ Definition Inv (t : tag) (f : inner) : Prop :=
       i_holder f = HRecvBody /\ c_phase c = PRecvBody
   end.
 
-(** Invariant of the single-call objects ([Call<WithoutBody>], [Call<WithBody>]). *)
+(** Invariant of the single-call objects ([Call<WithoutBody>], [Call<WithBody>], and past the
+    request [Call<RecvResponse>], [Call<RecvBody>]: the call-level part of the flow invariant of
+    the state of the same name). *)
 Definition CallInv (h : holder) (c : call) : Prop :=
   match h with
   | HWithoutBody => SendCommon c
   | HWithBody => SendCommon c /\ WB c
-  | _ => True
+  | HRecvResponse =>
+      RecvCommon c /\ c_phase c = PRecvResponse /\ (forall r, c_reader c = Some r -> reader_ok r)
+  | HRecvBody =>
+      RecvCommon c /\ c_phase c = PRecvBody /\ (exists r, c_reader c = Some r /\ reader_ok r)
   end.
 
 (* ------------------------------------------------------------------ basic consequences *)
